@@ -35,6 +35,8 @@ def run(ctx):
                    "j and count start at 0 and are carried across queries; emit int(i + count) once per query, in query order")
     res.rule("P2", "sorted=False: rows = removed[argsort(removed[:, 0])]; sorted=True: rows = removed")
     res.rule("P3", "removed rows of rdp() and compute_removed_points() are [left, next_retained - left - 1]")
+    res.rule("P4", "mapping and compute_removed_points never write into their arguments (alias analysis): the same table gives the same answer on every call")
+    _pure(rc)
     fi = rc.func("rdp.mapping")
     mod = fi.module
     ev = rc.new_eval()
@@ -89,6 +91,10 @@ def run(ctx):
     k = loop.body.index(w)
     i = ev.symbol(ivar)
     carried = [n for n in stored_names(w) if n in inits]
+    numeric_carried = [n for n in stored_names(w) if isinstance(env.get(n), Rat)]
+    if len(carried) != 2 and len(numeric_carried) != 2:
+        # not "a cursor and a sum, one of them wrongly initialised" but another algorithm altogether
+        raise AnalysisError(f"rdp.mapping: the consuming loop carries {numeric_carried or 'no numeric state'} - expected a row cursor and a running sum; shape not recognised")
     if len(carried) != 2:
         res.violation("P1", mod, fi.name, fi.node, "the row cursor and the running sum are not both initialised to 0 before the first query",
                       str(sorted(inits)), "j = 0; count = 0", construct="carried init")
@@ -171,3 +177,22 @@ def run(ctx):
                         "positions ascending; removed rows cover consecutive retained pairs"]
     res.not_decided += ["mapping(I) == reduced[I] as a behavioural equality on concrete reductions"]
     res.require_instances("C07 obligations", len(res.obligations), 9)
+
+
+
+def _pure(rc: RuleCtx):
+    """P4: a lookup that rewrites the table it reads (e.g. an in-place cumulative sum on `removed` when sorted=True
+    makes rows the caller's own array) answers differently the second time it is asked."""
+    from ..mutation import MutationAnalysis
+    res = rc.res
+    ma = MutationAnalysis(rc.ctx.repo, rc.ctx.linker)
+    for q in ("rdp.mapping", "rdp.compute_removed_points"):
+        fi = rc.func(q)
+        evs = [e for e in ma.events.get(q, []) if e.kind == "write"]
+        if not evs:
+            res.ok("P4", q, f"tracked parameters {ma.tracked_params.get(q, [])}: no write on any alias")
+        for e in evs:
+            res.violation("P4", fi.module, fi.name, e.node,
+                          f"{q} writes into its argument '{e.param}' ({e.how}): a second call with the same table no longer returns the original indices",
+                          ast.unparse(e.node)[:120] if hasattr(e.node, "lineno") else "", "no write on a value that may alias a parameter",
+                          construct=f"writes {e.param}")
